@@ -8,7 +8,7 @@
 #[cfg(kani)]
 mod verif_c17 {
     use super::*;
-    use crate::verif_spec::*;
+    use crate::verif_spec as vs;
 
     //@ob id=C17.icao_to_country.contract props=C17 tier=quick kind=contract fns=country/country_icao_mask.rs:icao_to_country
     //@region all 2^24 addresses: code == block of the flat Annex 10 table containing the address, "??" outside every block
@@ -25,7 +25,7 @@ mod verif_c17 {
     #[kani::proof]
     #[kani::unwind(192)]
     fn c17_table_well_formed() {
-        assert!(country_table_well_formed(), "spec table: sorted, disjoint, aligned");
+        assert!(vs::country_table_well_formed(), "spec table: sorted, disjoint, aligned");
         kani::cover!(true, "reach_end");
     }
 
